@@ -55,10 +55,13 @@ type Explorer struct {
 	Bound    int
 	Deadline time.Time
 	NoCache  bool
-	Stats    Stats
-	cache    map[uint64]int
-	found    *Found
-	timeout  bool
+	// Unbounded explores every alternative at every choice point (no delay
+	// bound); termination then rests on the happens-before cache alone.
+	Unbounded bool
+	Stats     Stats
+	cache     map[uint64]int
+	found     *Found
+	timeout   bool
 	// OnKnown is called for known-finding signatures seen in a run.
 	KnownSeen map[string]bool
 }
@@ -85,7 +88,7 @@ func (c *dfsChooser) Choose(e *Exec, n int) int {
 	}
 	if !c.ex.NoCache {
 		key := e.points[len(e.points)-1].Key
-		if b, ok := c.ex.cache[key]; ok && b >= c.budget {
+		if b, ok := c.ex.cache[key]; ok && (c.ex.Unbounded || b >= c.budget) {
 			c.trunc = true
 			return -1
 		}
@@ -119,6 +122,20 @@ func (x *Explorer) Explore() *Found {
 	x.Stats.BoundDone = -1
 	if x.KnownSeen == nil {
 		x.KnownSeen = map[string]bool{}
+	}
+	if x.Unbounded {
+		x.cache = map[uint64]int{}
+		x.explore(nil, nil, 1<<30, 1<<30)
+		if x.found != nil {
+			return x.found
+		}
+		x.Stats.States = len(x.cache)
+		x.Stats.Unbounded = true
+		x.Stats.Exhaustive = !x.timeout
+		if !x.timeout {
+			x.Stats.BoundDone = 1 << 30
+		}
+		return nil
 	}
 	for k := 0; k <= x.Bound; k++ {
 		x.cache = map[uint64]int{}
@@ -184,10 +201,14 @@ func (x *Explorer) explore(prefix, prefixN []int, budget, bound int) {
 	}
 	for i := len(prefix); i < len(r.Points); i++ {
 		n := r.Points[i].N
-		for alt := 1; alt < n && alt <= budget; alt++ {
+		for alt := 1; alt < n && (x.Unbounded || alt <= budget); alt++ {
 			np := append(append([]int{}, choices[:i]...), alt)
 			nn := append(append([]int{}, ns[:i]...), n)
-			x.explore(np, nn, budget-alt, bound)
+			nb := budget - alt
+			if x.Unbounded {
+				nb = budget
+			}
+			x.explore(np, nn, nb, bound)
 			if x.found != nil || x.timeout {
 				return
 			}
